@@ -1,4 +1,5 @@
 import GoSSE.Proofs.ClientRegistry
+import GoSSE.Proofs.GenEquivDispatch
 /-!
 # C13 — each event reaches exactly the callbacks subscribed to its type
 
@@ -123,5 +124,117 @@ theorem stream_order (pre post : List ROp) (t : Bytes) :
 example :
     (runScript [.sub [97], .unsub 0, .sub [97], .unsub 0, .subAll, .event [97], .event []]).log = [[1, 2], [2]] := by
   decide
+
+/-! ### The registry as translated from client_connection.go
+
+`Connection.addSubscriber`, `addSubscriberToAll`, the function literals they return (the removers: translated as
+definitions over the variables they capture) and `dispatch` are translated from the source on every run
+(`Gen/Reset.lean`). A callback is a number, a call through it an entry of the log the connection carries (`cblog`);
+the visiting orders of `dispatch`'s two `range` statements are parameters — the theorems hold for **every** order.
+A *reader's view* of the registry is `mapGet (typed c ty) k` (the callback registered for type `ty` under id `k`) and
+`mapGet c.callbacksAll k`: whether an emptied inner map is dropped or kept makes no difference to it. -/
+
+open GoSSE.GoRT GoSSE.GenEquiv in
+/-- **`dispatch` as translated.** For every connection, event and pair of visiting orders the translated `dispatch` does
+not fault, leaves the registry alone and appends to the call log exactly: one call per visited id registered for the
+event's exact type, then one per visited id registered for all events — every one of them with this event. -/
+theorem translated_dispatch (fuel : Nat) (c : Gen.Connection) (ev : Gen.Event) (order order2 : List Int)
+    (hf : order.length < fuel) (hf2 : order2.length < fuel) :
+    Gen.Connection_dispatch fuel c ev order order2 =
+      .ok (logged c (callsOf (typed c ev.Type') order ev ++ callsOf c.callbacksAll order2 ev)) :=
+  dispatch_eq fuel c ev order order2 hf hf2
+
+open GoSSE.GoRT GoSSE.GenEquiv in
+/-- **… and to no other.** Every call the translated `dispatch` makes carries the dispatched event and goes to a callback
+that is registered, at that moment, for the event's exact type or for all events; a duplicate-free order makes exactly
+as many calls as it visits registered ids (one each, `callsOf`), so with the orders Go produces — every key once — each
+registration is served exactly once. -/
+theorem translated_dispatch_only_subscribed (fuel : Nat) (c : Gen.Connection) (ev : Gen.Event) (order order2 : List Int)
+    (hf : order.length < fuel) (hf2 : order2.length < fuel) :
+    ∃ c', Gen.Connection_dispatch fuel c ev order order2 = .ok c' ∧
+      c'.callbacks = c.callbacks ∧ c'.callbacksAll = c.callbacksAll ∧ c'.callbackID = c.callbackID ∧
+      ∃ calls, c'.cblog = c.cblog ++ calls ∧
+        (∀ x ∈ calls, x.2 = ev ∧
+          ((∃ k ∈ order, mapGet (typed c ev.Type') k = some x.1) ∨ (∃ k ∈ order2, mapGet c.callbacksAll k = some x.1))) ∧
+        calls.length = (order.filter fun k => (mapGet (typed c ev.Type') k).isSome).length +
+                       (order2.filter fun k => (mapGet c.callbacksAll k).isSome).length := by
+  refine ⟨_, dispatch_eq fuel c ev order order2 hf hf2, rfl, rfl, rfl, _, rfl, ?_, ?_⟩
+  · intro x hx
+    rcases List.mem_append.mp hx with h | h
+    · have := mem_callsOf _ _ _ _ h
+      exact ⟨this.1, Or.inl this.2⟩
+    · have := mem_callsOf _ _ _ _ h
+      exact ⟨this.1, Or.inr this.2⟩
+  · rw [List.length_append, callsOf_length, callsOf_length]
+
+open GoSSE.GoRT GoSSE.GenEquiv in
+/-- **Subscribing as translated.** `addSubscriber event cb` does not fault; it hands back `(event, id)` — what the remover
+captures — with `id` the counter's value, registers `cb` for `event` under `id`, changes nothing else a reader sees and
+advances the counter. While every id in use is below the counter (`Fresh`, kept by every operation) the slot it takes
+was free: a subscription never takes over or overwrites another one. -/
+theorem translated_subscribe (fuel : Nat) (c : Gen.Connection) (event : Bytes) (cb : Nat) :
+    Gen.Connection_addSubscriber fuel c event cb = .ok ((event, c.callbackID), afterSub c event cb) ∧
+    mapGet (typed (afterSub c event cb) event) c.callbackID = some cb ∧
+    (∀ ty k, ty ≠ event ∨ k ≠ c.callbackID → mapGet (typed (afterSub c event cb) ty) k = mapGet (typed c ty) k) ∧
+    (afterSub c event cb).callbacksAll = c.callbacksAll ∧ (afterSub c event cb).cblog = c.cblog ∧
+    (Fresh c → Fresh (afterSub c event cb) ∧ mapGet (typed c event) c.callbackID = none) :=
+  ⟨addSubscriber_eq fuel c event cb, sub_self c event cb, fun ty k h => sub_other c event cb ty k h, rfl, rfl,
+    fun h => ⟨sub_fresh c event cb h, sub_slot_free c event h⟩⟩
+
+open GoSSE.GoRT GoSSE.GenEquiv in
+theorem translated_subscribe_to_all (fuel : Nat) (c : Gen.Connection) (cb : Nat) :
+    Gen.Connection_addSubscriberToAll fuel c cb = .ok (c.callbackID, afterSubAll c cb) ∧
+    mapGet (afterSubAll c cb).callbacksAll c.callbackID = some cb ∧
+    (∀ k, k ≠ c.callbackID → mapGet (afterSubAll c cb).callbacksAll k = mapGet c.callbacksAll k) ∧
+    (afterSubAll c cb).callbacks = c.callbacks ∧ (afterSubAll c cb).cblog = c.cblog ∧
+    (Fresh c → Fresh (afterSubAll c cb) ∧ mapGet c.callbacksAll c.callbackID = none) :=
+  ⟨addSubscriberToAll_eq fuel c cb, subAll_self c cb, fun k h => subAll_other c cb k h, rfl, rfl,
+    fun h => ⟨subAll_fresh c cb h, subAll_slot_free c h⟩⟩
+
+open GoSSE.GoRT GoSSE.GenEquiv in
+/-- **The removers as translated.** The function literal `addSubscriber` returns, run on what it captured, does not fault
+and takes exactly its own registration out of a reader's view — whatever the registry looks like by then: every other
+type and id reads as before, also when its type's inner map was emptied and dropped, when its type has since been
+subscribed to again, and when it has been called before (the reader's view after a second call is that after the first:
+calling it repeatedly is harmless and never affects other subscriptions). After it has run, a `dispatch` visits no
+registration under its id (`translated_dispatch`: calls come from registered ids only). -/
+theorem translated_remover_typed (fuel : Nat) (c : Gen.Connection) (event : Bytes) (id : Int) :
+    Gen.Connection_removeFromType fuel c event id = .ok (afterUnsub c event id) ∧
+    (∀ ty k, mapGet (typed (afterUnsub c event id) ty) k = if ty = event ∧ k = id then none else mapGet (typed c ty) k) ∧
+    (∀ ty k, mapGet (typed (afterUnsub (afterUnsub c event id) event id) ty) k = mapGet (typed (afterUnsub c event id) ty) k) ∧
+    (afterUnsub c event id).callbacksAll = c.callbacksAll ∧ (afterUnsub c event id).callbackID = c.callbackID ∧
+    (Fresh c → Fresh (afterUnsub c event id)) := by
+  refine ⟨removeFromType_eq fuel c event id, fun ty k => unsub_lookup c event id ty k, ?_, rfl, rfl, unsub_fresh c event id⟩
+  intro ty k
+  rw [unsub_lookup, unsub_lookup]
+  by_cases h : ty = event ∧ k = id <;> simp [h]
+
+open GoSSE.GoRT GoSSE.GenEquiv in
+theorem translated_remover_all (fuel : Nat) (c : Gen.Connection) (id : Int) :
+    Gen.Connection_removeFromAll fuel c id = .ok (afterUnsubAll c id) ∧
+    (∀ k, mapGet (afterUnsubAll c id).callbacksAll k = if k = id then none else mapGet c.callbacksAll k) ∧
+    (∀ k, mapGet (afterUnsubAll (afterUnsubAll c id) id).callbacksAll k = mapGet (afterUnsubAll c id).callbacksAll k) ∧
+    (afterUnsubAll c id).callbacks = c.callbacks ∧ (afterUnsubAll c id).callbackID = c.callbackID ∧
+    (Fresh c → Fresh (afterUnsubAll c id)) := by
+  refine ⟨removeFromAll_eq fuel c id, fun k => unsubAll_lookup c id k, ?_, rfl, rfl, unsubAll_fresh c id⟩
+  intro k
+  rw [unsubAll_lookup, unsubAll_lookup]
+  by_cases h : k = id <;> simp [h]
+
+/-- non-vacuity, through the translated text itself: subscribe 7 to "a", 8 to all, 9 to "a"; unsubscribe the first (twice);
+an event of type "a" visited in the order 2, 0, 1 is handed to 9 and then to 8 — and nobody else -/
+example :
+    let c0 : Gen.Connection := ⟨(), none, [], [], [], (), (), (), 0, false, []⟩
+    let ev : Gen.Event := ⟨[], [97], [120]⟩
+    (do let r1 ← Gen.Connection_addSubscriber 5 c0 [97] 7
+        let r2 ← Gen.Connection_addSubscriberToAll 5 r1.2 8
+        let r3 ← Gen.Connection_addSubscriber 5 r2.2 [97] 9
+        let c4 ← Gen.Connection_removeFromType 5 r3.2 r1.1.1 r1.1.2
+        let c5 ← Gen.Connection_removeFromType 5 c4 r1.1.1 r1.1.2
+        let c6 ← Gen.Connection_dispatch 5 c5 ev [2, 0, 1] [2, 1, 0]
+        pure (c6.cblog.map (·.1), c6.callbacks, c6.callbacksAll, c6.callbackID) : GoRT.GoM _) =
+      .ok ([9, 8], [([97], [(2, 9)])], [(1, 8)], 3) := by
+  intro c0 ev
+  rfl
 
 end GoSSE.Props.C13
